@@ -1,4 +1,6 @@
 pub mod c01;
+pub mod c04;
+pub mod c05;
 pub mod c06;
 
 use crate::runner::{load_replay, run_replay_tier, Ctx, Outcome};
@@ -10,6 +12,8 @@ type Run = fn(&Ctx);
 fn table(id: &str) -> Option<(Run, Judge, &'static str, &'static [&'static str])> {
     match id {
         "C01" => Some((c01::run, c01::judge, c01::RULE, c01::ASSUMPTIONS)),
+        "C04" => Some((c04::run, c04::judge, c04::RULE, c04::ASSUMPTIONS)),
+        "C05" => Some((c05::run, c05::judge, c05::RULE, c05::ASSUMPTIONS)),
         "C06" => Some((c06::run, c06::judge, c06::RULE, c06::ASSUMPTIONS)),
         _ => None,
     }
